@@ -264,7 +264,60 @@ def probe():
         except BaseException as e: ca = "rejected:" + type(e).__name__
         if (rt, ca) != ("admitted", "admitted"): bad.append(["same-named classes", raised.__module__, 0, [rt, ca], ["admitted", "admitted"]])
     return bad
+
+def recursion_probe():
+    # the same exception object crosses the wrapper of the same function several times (direct recursion; an exception instance that
+    # is raised again by a later call): every frame / call classifies it with ITS OWN arguments
+    bad = []
+    class Boom(ValueError): pass
+    def outcome(run):
+        try: run(); return "returned"
+        except deal.ReasonContractError: return "ReasonContractError"
+        except deal.RaisesContractError: return "RaisesContractError"
+        except ValueError: return "ValueError"
+        except BaseException as e: return "exc:" + type(e).__name__
+    for kind in ("sync", "async", "gen"):
+        for depth in (0, 1, 2, 4):
+            if kind == "sync":
+                @deal.reason(ValueError, lambda n: n == 0)
+                def f(n):
+                    if n == 0: raise ValueError("bottom")
+                    return f(n - 1)
+                run = lambda: f(depth)
+            elif kind == "async":
+                @deal.reason(ValueError, lambda n: n == 0)
+                async def f(n):
+                    if n == 0: raise ValueError("bottom")
+                    return await f(n - 1)
+                run = lambda: asyncio.run(f(depth))
+            else:
+                @deal.reason(ValueError, lambda n: n == 0)
+                def f(n):
+                    if n == 0: raise ValueError("bottom")
+                    yield from f(n - 1)
+                run = lambda: list(f(depth))
+            got = outcome(run)
+            want = "ValueError" if depth == 0 else "ReasonContractError"      # the frame above the bottom one does not accept
+            if got != want: bad.append([kind, "recursion depth", depth, got, want])
+    the = ValueError("shared")
+    @deal.reason(ValueError, lambda x: x > 0)
+    def g(x): raise the
+    for x, want in ((1, "ValueError"), (-1, "ReasonContractError"), (2, "ValueError"), (-2, "ReasonContractError")):
+        got = outcome(lambda: g(x))
+        if got != want: bad.append(["sync", "shared exception instance, x", x, got, want])
+    return bad
 """
+
+
+def recursion_probe(ctx, fr):
+    from ..harness import impl
+    r = impl.run_impl('pyexec.py', {'src': INHERIT_SRC, 'calls': [['recursion_probe', []]]})[0]
+    fr.evaluations += 16; fr.add_nontrivial({'recursion_probe': 1})
+    fr.samples.append({'family': 'one exception object crossing the same wrapper several times', 'deviations': r})
+    if isinstance(r, dict): fr.errors.append('C03 recursion probe failed: ' + str(r)[:400])
+    elif r:
+        fr.violations.append({'scenario': {'family': 'recursion-reason', 'case': r[0]}, 'impl': r[:5], 'signature': None,
+                              'what': f'[kind, what, value, observed, expected] = {r[0]}: every frame classifies the exception with its own arguments'})
 
 
 def inherit_probe(ctx, fr):
@@ -282,6 +335,7 @@ _run_main = run
 def run(ctx, fr, model_available=True):
     _run_main(ctx, fr, model_available)
     inherit_probe(ctx, fr)
+    recursion_probe(ctx, fr)
 
 
 def search(ctx, fr, model_available=True): return base_scn.search(_me, ctx, fr, model_available)
